@@ -1,5 +1,6 @@
 import QP.Model.PT
 import QP.Proofs.PTExamples
+import QP.Proofs.PTTable
 /-!
 # C01 — an instantiated program plays exactly the voltages the template describes
 
@@ -86,6 +87,25 @@ theorem judge_is_at (pl : PL) (h : ∀ s ∈ pl, s.amb = false) (t : Rat) :
 /-- … and always contain it (inside a reversed part the left limit at a junction may follow) -/
 theorem judge_contains_at (pl : PL) (t v : Rat) (h : PL.at pl t = some v) :
     ∃ rest, PL.adm none pl t = v :: rest := adm_head pl none t v h
+
+/-- **PF-01 (repaired): the constant detection of `TableWaveform.from_table` is sound.** When a table is folded
+into a constant waveform of value `c`, every one of its segments — judged with its *own* interpolation — is the
+constant `c`, so the table denotes the constant function `c` of the same duration. -/
+theorem table_const_detection_sound (ch ch' : Chan) (es : List WEntry) (d c : Rat)
+    (h : fromTable ch es = .ok (.const d ch' c)) :
+    d = lastT es ∧ ch' = ch ∧ ∀ s ∈ entriesToPL es, s.v0 = c ∧ s.v1 = c := by
+  obtain ⟨hp, hd, hch⟩ := fromTable_const_sound ch ch' es d c h
+  exact ⟨hd, hch, entriesToPL_const c es hp⟩
+
+/-- PF-01 on its witness `[(0, 1), (1, 1, 'hold'), (2, 3, 'linear')]`: the detection as it was (next segment judged
+with the previous entry's interpolation) calls the table constant 1, the repaired one does not, and the table
+denotes a ramp from 1 to 3 on `[1, 2)`. -/
+theorem pf01_counterexample :
+    (validateLoopOld [⟨2, 3, .linear⟩] 0 1 ⟨1, 1, .hold⟩ (interpConst .hold 1 1) [⟨0, 1, .hold⟩]).map (·.2.1)
+      = .ok (some 1) ∧
+    (validateLoop [⟨2, 3, .linear⟩] 0 1 ⟨1, 1, .hold⟩ (interpConst .hold 1 1) [⟨0, 1, .hold⟩]).map (·.2.1)
+      = .ok none ∧
+    entriesToPL pf01Table = [{ len := 1, v0 := 1, v1 := 1 }, { len := 1, v0 := 1, v1 := 3 }] := pf01_witness
 
 /-- `LoopGuard`: a sequence / iteration that appends nothing leaves nothing behind, its own windows included -/
 theorem guard_drops_empty (ms : List Window) : guardRun ms [] = [] := by
